@@ -298,6 +298,8 @@ def judge(call, res, ref, grid):
     """ref: rows [x0, x(t_1), ..., x(t_n)].  returns (cls, what, worst_normalised_error) ; cls None = holds"""
     ent = call["entry"]
     n = 1 if call.get("scalar_t") else len(grid)
+    if res["err"] is not None and call.get("refusal_ok") and res["err"].startswith("IntegrationError"):
+        return None, None, None             # an explicit refusal where the step budget cannot cover the interval: not a wrong answer
     if res["err"] is not None:
         return "raises:" + ent, "%s(%s) raised %s" % (ent, fmt_call(call), res["err"]), None
     rows = res["rows"]
@@ -519,11 +521,12 @@ def run(ck):
         stats["grids"]["corpus"] = stats["grids"].get("corpus", 0) + 1
         # the long gap is run on the methods whose step budget (nsteps / mxstep = 10000) covers it; vode/ivode (BDF/Adams at
         # pygom's tolerances) exhaust it and say so with an IntegrationError, which is not a wrong answer
-        cs = [c for c in calls if not (spec["name"] == "Spiral" and c.get("method") in ("vode", "ivode"))]
+        # (... what they may NOT do is hand back the half-integrated state as if it were the requested row: refusal or the solution)
+        cs = [dict(c, refusal_ok=True) if (spec["name"] == "Spiral" and c.get("method") in ("vode", "ivode")) else c for c in calls]
         if spec["name"] == "Robertson":
             # five decades of a stiff problem: the odeint path (mxstep 10000 per interval) solves it, the step-by-step drivers
             # run out of their step budget on the long intervals and say so (IntegrationError)
-            cs = [c for c in cs if c["entry"] in ("integrate", "solve_determ")]
+            cs = [c if c["entry"] in ("integrate", "solve_determ") else dict(c, refusal_ok=True) for c in cs]
         if spec.get("_grid_from_t0"):
             # a zero-length first step: integrate / solve_determ and integrate2 with the lsoda / vode family solve it; the direct
             # integrateFuncJac calls and dopri5 / dop853 refuse it with an IntegrationError (explicit, recorded as an observation)
